@@ -32,6 +32,9 @@ type ROp struct {
 	Kind string `json:"kind"`
 	K    []byte `json:"k,omitempty"`
 	Asc  bool   `json:"asc,omitempty"`
+	// Keep: read through the handle the reader obtained for its previous step (a reader that keeps its version open
+	// while the writer goes on) instead of asking for a version again
+	Keep bool `json:"keep,omitempty"`
 }
 
 type Directive struct {
@@ -176,7 +179,7 @@ func (s *sched) finish(th int) {
 }
 
 type c06Stats struct {
-	honoured, unscheduled, between, readerOps int
+	honoured, unscheduled, between, readerOps, keptReads int
 }
 
 type verModel struct {
@@ -387,10 +390,11 @@ func runC06(c C06Case) (v *Violation, st c06Stats) {
 		ver      int64
 		op       ROp
 		th       int
+		it       *iavl.ImmutableTree // the handle the reader used
 	}
 	var smu sync.Mutex
 	var suspects []suspect
-	var nread int32
+	var nread, nkept int32
 	for ri, script := range c.Readers {
 		wg.Add(1)
 		go func(th int, script []ROp) {
@@ -403,27 +407,37 @@ func runC06(c C06Case) (v *Violation, st c06Stats) {
 			}()
 			register(th)
 			s.event("start")
+			var keptIt *iavl.ImmutableTree
+			var keptVer int64
 			for _, op := range script {
 				ver := op.V
-				if ver == 0 {
-					lv, err := tr.GetLatestVersion()
-					if err != nil {
-						viol("reader.latest", "GetLatestVersion: %v", err)
+				var it *iavl.ImmutableTree
+				if op.Keep && keptIt != nil {
+					it, ver = keptIt, keptVer
+					atomic.AddInt32(&nkept, 1)
+				} else {
+					if ver == 0 {
+						lv, err := tr.GetLatestVersion()
+						if err != nil {
+							viol("reader.latest", "GetLatestVersion: %v", err)
+						}
+						ver = lv
 					}
-					ver = lv
+					var err error
+					it, err = tr.GetImmutable(ver)
+					if err != nil || models[ver] == nil {
+						viol("reader.getimmutable", "reader %d: GetImmutable(%d) (requested %d): %v model=%v", th, ver, op.V, err, models[ver] != nil)
+						s.done(th)
+						continue
+					}
+					keptIt, keptVer = it, ver
 				}
 				m := models[ver]
-				it, err := tr.GetImmutable(ver)
-				if err != nil || m == nil {
-					viol("reader.getimmutable", "reader %d: GetImmutable(%d) (requested %d): %v model=%v", th, ver, op.V, err, m != nil)
-					s.done(th)
-					continue
-				}
 				checkRead(it, ver, m, op, th, func(obs, f string, a ...any) {
 					if ver >= v0 && !c.Skip && (op.Kind == "get" || op.Kind == "has" || op.Kind == "iterator") {
 						// possibly the transient window of F12: decided after the run
 						smu.Lock()
-						suspects = append(suspects, suspect{obs, fmt.Sprintf(f, a...), ver, op, th})
+						suspects = append(suspects, suspect{obs, fmt.Sprintf(f, a...), ver, op, th, it})
 						smu.Unlock()
 						return
 					}
@@ -441,6 +455,9 @@ func runC06(c C06Case) (v *Violation, st c06Stats) {
 		persistent := err != nil
 		if err == nil {
 			checkRead(it, sp.ver, models[sp.ver], sp.op, sp.th, func(string, string, ...any) { persistent = true })
+			// ... and through the very handle the reader holds (the version still exists): a handle that stays wrong
+			// after the writer has finished is not the commit window of F12
+			checkRead(sp.it, sp.ver, models[sp.ver], sp.op, sp.th, func(string, string, ...any) { persistent = true })
 		}
 		if persistent {
 			viol(sp.obs, "%s (and the same read is still wrong after the writer finished)", sp.msg)
@@ -476,6 +493,7 @@ func runC06(c C06Case) (v *Violation, st c06Stats) {
 		}
 	}
 	st.honoured, st.unscheduled, st.between, st.readerOps = int(s.honoured), int(s.unscheduled), int(s.between), int(nread)
+	st.keptReads = int(nkept)
 	return v, st
 }
 
@@ -663,6 +681,7 @@ func genC06(t *rapid.T, stress bool) C06Case {
 					op.K = rapid.SampledFrom(wk).Draw(t, "rwk")
 				}
 			}
+			op.Keep = i > 0 && rapid.IntRange(0, 2).Draw(t, "rkeep") == 0
 			script = append(script, op)
 		}
 		c.Readers = append(c.Readers, script)
@@ -741,6 +760,7 @@ func TestC06Plan(t *testing.T) {
 		Count("C06", "directives_unscheduled", st.unscheduled)
 		Count("C06", "reader_steps_while_writer_parked", st.between)
 		Count("C06", "reader_ops_checked", st.readerOps)
+		Count("C06", "reads_through_a_kept_handle", st.keptReads)
 		RecordCase("C06", c, st.between >= 1, map[string]bool{"async": c.Async, "fast_index": !c.Skip, "cache_on": c.Cache > 0, "unscheduled": st.unscheduled > 0, "plan": true})
 	})
 }
@@ -762,6 +782,7 @@ func TestC06Stress(t *testing.T) {
 			reportViolation(rt, "C06", c, v)
 		}
 		Count("C06", "reader_ops_checked", st.readerOps)
+		Count("C06", "reads_through_a_kept_handle", st.keptReads)
 		Count("C06", "stress_cases", 1)
 		RecordCase("C06", c, len(c.Readers) >= 2, map[string]bool{"async": c.Async, "fast_index": !c.Skip, "cache_on": c.Cache > 0, "stress": true})
 	})
